@@ -56,7 +56,9 @@ type c02Template struct {
 var (
 	c02ExprFill = []string{"a", "(a)", "b.c", "b.c()", "g(1)", "1", `"s"`, "a + b", "x", "n", "q", "func() {}",
 		// pairs that differ only in a token go/ast encodes as position validity
-		"g(b...)", "g(b)", "func() { type T = int }", "func() { type T int }", "func() { var (\n\tv int\n) }", "func() { var v int }"}
+		"g(b...)", "g(b)", "func() { type T = int }", "func() { type T int }", "func() { var (\n\tv int\n) }", "func() { var v int }",
+		// compound code containing identifiers spelled like the metavariables; generic instantiations
+		"g(x)", "g(z)", "x + 1", "z + 1", "Pair[int, string]", "p.List[int]"}
 	c02IdentFill = []string{"a", "b", "x", "n", "q"}
 	c02TypeFill  = []string{"int", "b.T", "[]int", "x", "q", "n"}
 )
